@@ -58,7 +58,7 @@ def tlc_jobs(ctx, mc_jobs, ex_cfgs, sim):
   jobs = [dict(spec_dir="lb", module="MCLoadBalancer", cfg=cfg, tag="X07", timeout=2400, workers=3)
           for cfg, _, _ in mc_jobs]
   jobs += [dict(spec_dir="lb", module="MCLoadBalancer", cfg=c, workers=1, coverage=False, tag="X07", timeout=2400)
-           for c in ex_cfgs]
+           for c, _ in ex_cfgs]
   jobs.append(dict(spec_dir="lb", module="MCLoadBalancer", cfg=sim[0], workers=1, coverage=False, tag="X07",
                    timeout=2400, **sim[1]))
   res = tlc.run_many(jobs, parallel=8)
@@ -69,17 +69,29 @@ def tlc_jobs(ctx, mc_jobs, ex_cfgs, sim):
     ctx.add_model(name, r)
     r.stdout = ""
   out = {}
-  for c, r in zip(ex_cfgs, res[len(mc_jobs):]):
+  for (c, n), r in zip(ex_cfgs, res[len(mc_jobs):]):
     r.stdout = ""
-    out[c] = [sort_sets(b) for b in r.tagged("T")]
+    raws = r.tagged_raw("T")
     r.prints = []
-    if not out[c]:
+    if not raws:
       raise tlc.TLCError("no behaviours exported by " + c)
+    # choose BEFORE decoding: the decoded behaviours of a whole edge cover would take gigabytes
+    keep = sample(raws, n, ctx.seed * 7919 + len(c), via=_raw_via)
+    out[c] = (len(raws), [sort_sets(json.loads(json.loads(x))) for x in keep])
   res[-1].stdout = ""
   return out, [sort_sets(b) for b in res[-1].tagged("H")]
 
 
-def sample(behs, n, seed):
+_VIA = '\\"via\\":\\"'
+
+
+def _raw_via(raw):
+  """the `via` of the last step of a behaviour still in TLC's quoted JSON"""
+  i = raw.rfind(_VIA)
+  return raw[i + len(_VIA):raw.index('\\"', i + len(_VIA))] if i >= 0 else "?"
+
+
+def sample(behs, n, seed, via=lambda b: b[-1]["via"]):
   """a seeded sample of n behaviours that is forced to contain every spec action (`via`) that occurs at all,
   each as the LAST step of some behaviour (that is the transition the behaviour was exported for)"""
   if len(behs) <= n:
@@ -87,7 +99,7 @@ def sample(behs, n, seed):
   rnd = random.Random(seed)
   by_via = {}
   for i, b in enumerate(behs):
-    by_via.setdefault(b[-1]["via"], []).append(i)
+    by_via.setdefault(via(b), []).append(i)
   keep = set()
   for v, idx in sorted(by_via.items()):
     keep.update(rnd.sample(idx, min(len(idx), max(20, n // (4 * len(by_via))))))
@@ -95,6 +107,16 @@ def sample(behs, n, seed):
   if len(keep) < n:
     keep.update(rnd.sample(rest, min(len(rest), n - len(keep))))
   return [behs[i] for i in sorted(keep)]
+
+
+def complain(ctx, msg):
+  """a vacuity complaint (some path was never exercised).  When conformance failures have already been reported
+  the missing paths are their consequence (e.g. servers that never die): the verdict stands, the complaint is
+  only noted.  Otherwise it is a machinery failure."""
+  if ctx.violations:
+    ctx.notes.setdefault("vacuity_complaints_after_violations", []).append(msg)
+  else:
+    raise tlc.TLCError(msg)
 
 
 def run(ctx):
@@ -143,14 +165,12 @@ def run(ctx):
              ("EXT_edges_n2xl.cfg", P_N2, 6000), ("EXT_edges_n2f.cfg", P_N2Z, 6000),
              ("EX_edges_n1f.cfg", dict(P_N1, B=0), 7000)]
   nsim = 30 if quick else 400
-  exported, simbehs = tlc_jobs(ctx, jobs, [p[0] for p in plans],
+  exported, simbehs = tlc_jobs(ctx, jobs, [(p[0], p[2]) for p in plans],
                                ("EX_sim.cfg", dict(simulate=dict(num=nsim), depth=121, seed=ctx.seed + 1)))
   seen_via = set()
   last_ok = None
   for cfg, params, n in plans:
-    behs = exported.pop(cfg)
-    total = len(behs)
-    behs = sample(behs, n, ctx.seed * 7919 + len(cfg))
+    total, behs = exported.pop(cfg)
     st = core.replay(ctx, ADAPTER, behs, params=params, nontrivial=nontrivial, chunk=40)
     for b in behs:
       seen_via.update(s["via"] for s in b)
@@ -169,17 +189,18 @@ def run(ctx):
   ctx.notes["replay_sim"] = dict(behaviours=len(behs), depth=120, **st)
   missing = [v for v in VIAS if v not in seen_via]
   if missing:
-    raise tlc.TLCError("vacuous replay: spec actions never replayed: %s" % missing)
+    complain(ctx, "vacuous replay: spec actions never replayed: %s" % missing)
   # negative control of the replay: one corrupted expectation must be reported
   if last_ok is None:
-    raise tlc.TLCError("no fully replayed behaviour ending in a forwarding step for the negative control")
-  params, beh = last_ok
-  bad = copy.deepcopy(beh)
-  bad[-1]["exp"]["em"][0]["dip"] = "s2" if bad[-1]["exp"]["em"][0]["dip"] == "s1" else "s1"
-  probe = core.Context(ctx.pid, ctx.tier, ctx.seed, ctx.level, clear=False)
-  core.replay(probe, ADAPTER, [bad], params=params, chunk=1)
-  if not probe.violations:
-    raise tlc.TLCError("negative control (corrupted destination server) was accepted by the replay")
+    complain(ctx, "no fully replayed behaviour ending in a forwarding step for the negative control")
+  else:
+    params, beh = last_ok
+    bad = copy.deepcopy(beh)
+    bad[-1]["exp"]["em"][0]["dip"] = "s2" if bad[-1]["exp"]["em"][0]["dip"] == "s1" else "s1"
+    probe = core.Context(ctx.pid, ctx.tier, ctx.seed, ctx.level, clear=False)
+    core.replay(probe, ADAPTER, [bad], params=params, chunk=1)
+    if not probe.violations:
+      raise tlc.TLCError("negative control (corrupted destination server) was accepted by the replay")
   # 4. code -> spec: seeded random driver on the real code (real constants), traces validated by TLC
   ntr, nev = (60, 160) if quick else (700, 220)
   total_tr, nrej = 0, 0
@@ -190,7 +211,7 @@ def run(ctx):
     for t in traces:
       for e in t:
         stats[e["via"]] = stats.get(e["via"], 0) + 1
-    controls = negative_controls(traces)
+    controls = negative_controls(ctx, traces)
     r, rej = tracecheck.validate("lb", "TraceLB", cfgfile, [strip(t) for t in traces] + controls, tag="X07",
                                  timeout=2400)
     ctx.add_model("TraceLB %s (validation of %d implementation traces)" % (name, n), r)
@@ -215,7 +236,7 @@ def run(ctx):
   ctx.notes["trace_validation"] = dict(traces=total_tr, rejected=nrej, per_path=stats)
   need = ["ClientNew", "ClientKnown", "ClientFast", "ServerKnown", "ServerFast", "expired", "died"]
   if any(stats.get(k, 0) == 0 for k in need):
-    raise tlc.TLCError("vacuous trace validation: %s" % {k: stats.get(k, 0) for k in need})
+    complain(ctx, "vacuous trace validation: %s" % {k: stats.get(k, 0) for k in need})
   ctx.exhaustive = True
 
 
@@ -380,7 +401,7 @@ def strip(trace):
   return [dict(a=e["a"], args=e["args"], obs=e["obs"], wf=e["wf"]) for e in trace]
 
 
-def negative_controls(traces):
+def negative_controls(ctx, traces):
   """corrupted copies of recorded traces that the trace spec must reject"""
   out = []
   # 1. a forwarded segment goes to the other server
@@ -423,7 +444,7 @@ def negative_controls(traces):
     if done:
       break
   if len(out) < 2:
-    raise tlc.TLCError("could not build the negative controls (%d)" % len(out))
+    complain(ctx, "could not build the negative controls (%d)" % len(out))
   return out
 
 
